@@ -108,8 +108,10 @@ Leaves(P) == {PlainLeaf(P, i) : i \in 1..Len(P.benches)} \cup {GenericLeaf(P, j)
 (* components); a #[divan::bench_group] whose module path and raw name     *)
 (* match contributes its display name and options.                         *)
 (***************************************************************************)
+StripAll(path) == [i \in 1..Len(path) |-> StripRaw(path[i])]
 GroupsAt(P, rawPath) ==
-  {g \in 1..Len(P.groups) : P.groups[g].mods_cp = Front(rawPath) /\ P.groups[g].raw_cp = Last(rawPath)}
+  {g \in 1..Len(P.groups) : StripAll(P.groups[g].mods_cp) = StripAll(Front(rawPath))
+                             /\ StripRaw(P.groups[g].raw_cp) = StripRaw(Last(rawPath))}
 HasGroup(P, rawPath) == Len(rawPath) >= 2 /\ GroupsAt(P, rawPath) # {}
 GroupOf(P, rawPath) == P.groups[CHOOSE g \in GroupsAt(P, rawPath) : TRUE]
 DisplayOf(P, rawPath) == IF HasGroup(P, rawPath) THEN EntryDisplay(GroupOf(P, rawPath)) ELSE StripRaw(Last(rawPath))
@@ -230,12 +232,22 @@ SibCmpSet(C, x, y) ==
 SeqRange(q) == {q[i] : i \in 1..Len(q)}
 NormOpts(o) == [k \in OptKeys |-> IF k = "threads" /\ IsSet(o[k]) THEN <<SeqRange(o[k][1])>> ELSE o[k]]
 
+\* `r#x` and `x` are the same identifier; whether module_path!() spells a raw module name with
+\* its prefix is the compiler's business (rustc keeps it for keywords only): module paths are
+\* compared without the prefixes.  (Drops "r#" at the start and after every "::".)
+RECURSIVE UnrawFrom(_, _, _)
+UnrawFrom(s, i, atStart) ==
+  IF i > Len(s) THEN <<>>
+  ELSE IF atStart /\ i + 1 <= Len(s) /\ s[i] = 114 /\ s[i + 1] = 35 THEN UnrawFrom(s, i + 2, FALSE)
+  ELSE <<s[i]>> \o UnrawFrom(s, i + 1, i >= 2 /\ s[i] = 58 /\ s[i - 1] = 58)
+Unraw(s) == UnrawFrom(s, 1, TRUE)
+
 \* module path as module_path!() spells it: components joined by "::"
 WrittenMeta(e) ==
-  [mp |-> JoinAll(e.mods_cp), raw |-> e.raw_cp, disp |-> EntryDisplay(e),
+  [mp |-> Unraw(JoinAll(e.mods_cp)), raw |-> e.raw_cp, disp |-> EntryDisplay(e),
    file |-> e.file_cp, line |-> e.line, col |-> e.col, opts |-> NormOpts(e.opts_rec)]
 DumpedMeta(e) ==
-  [mp |-> e.module_path_cp, raw |-> e.raw_name_cp, disp |-> e.display_name_cp,
+  [mp |-> Unraw(e.module_path_cp), raw |-> e.raw_name_cp, disp |-> e.display_name_cp,
    file |-> e.file_cp, line |-> e.line, col |-> e.col, opts |-> NormOpts(e.opts)]
 
 \* a benchmark function without types / consts: one entry; with `args` one case per value, in order
